@@ -2,6 +2,7 @@ import CollectionsC.Base.Status
 import CollectionsC.Base.Mem
 import CollectionsC.Base.Buf
 import CollectionsC.Base.Word
+import CollectionsC.Model.BufFast
 /-! Concrete model of `src/cc_deque.c`: the fields of `struct cc_deque_s`, every function with the
 statements of the C text in the same order (each `memmove`, each slot read/write, each allocator call).
 
